@@ -783,7 +783,7 @@ func (e *Engine) rangeIter(x Value, t types.Type) Value {
 		it := &Iter{kind: 1, m: x}
 		if x != nil {
 			it.snap = append(it.snap, x.entries...)
-			if x.flip && len(it.snap) > 1 && e.decide(e.freshVar("ord", 0)) {
+			if (x.flip || e.flipHere) && len(it.snap) > 1 && e.decide(e.freshVar("ord", 0)) {
 				for i, j := 0, len(it.snap)-1; i < j; i, j = i+1, j-1 {
 					it.snap[i], it.snap[j] = it.snap[j], it.snap[i]
 				}
